@@ -82,6 +82,9 @@ func (g *G) genC07(p *Plan) {
 				op = Op{K: "head", B: b, Key: key()}
 			case r < 74:
 				op = Op{K: "del", B: b, Key: key()}
+				if c.Versioned && g.chance(0.5) {
+					op.Ver = g.n(1, 6) // delete-version of one of the key's issued ids
+				}
 			case r < 80:
 				op = Op{K: "copy", B: b, Key: key(), SrcB: b, SrcKey: key()}
 			case r < 86:
@@ -271,6 +274,10 @@ func (g *G) genC08(p *Plan) {
 			}
 			ops = append(ops, op)
 		}
+	}
+	if kind == "part" {
+		// what the upload holds after all the rejected and accepted part uploads is observable only by completing it
+		ops = append(ops, Op{K: "mpu-complete", Up: up, Parts: []PartRef{{N: 1}, {N: 2}, {N: 3}}[:g.n(1, 3)]})
 	}
 	ops = append(ops, Op{K: "fullcheck"})
 	p.Clients = [][]Op{ops}
@@ -670,7 +677,7 @@ func (g *G) genC09(p *Plan) {
 		for i := 0; i < n; i++ {
 			op := g.rawRequest(c, b, keys, esc, rq, withLen)
 			if g.chance(0.08) {
-				op.Faults = append(op.Faults, Fault{Kind: g.pick("abort", "aborteof"), At: g.n(0, 20)})
+				op.Faults = append(op.Faults, Fault{Kind: g.pick("abort", "aborteof", "hang", "hang"), At: g.n(0, 12)})
 			}
 			if g.chance(0.05) {
 				op.Faults = append(op.Faults, Fault{Kind: "respfail", At: g.n(1, 200)})
